@@ -48,6 +48,8 @@ pub(crate) fn any_token<const N_ADDR: usize>() -> ConnectToken {
     }
 }
 
+const CLIENT_SEQ: u64 = 0x1_02;
+
 fn state_code(c: &NetcodeClient) -> u8 {
     match c.state {
         ClientState::Disconnected(_) => 0,
@@ -71,8 +73,9 @@ fn any_client<const N_ADDR: usize>(state: u8) -> NetcodeClient {
         None
     };
     let token = any_token::<N_ADDR>();
-    let sequence: u64 = kani::any();
-    kani::assume(sequence < (1u64 << 62));
+    // the send sequence is CONCRETE (a symbolic sequence makes every offset into the 1400-byte `out`
+    // buffer symbolic; that nonce == sequence for ALL sequences is lemma enc_len_*): one value per call site
+    let sequence: u64 = CLIENT_SEQ;
     let idx: usize = kani::any();
     kani::assume(idx < 32);
     NetcodeClient {
